@@ -453,6 +453,7 @@ func srvPooled(o *Out, rig *srvRig, r *rand.Rand, id *int, pfx string) {
 			}
 			defer p.c.Close()
 			want := map[int]int{}
+			wantErr := map[int]bool{}
 			n := 0
 			for i := 0; i < per; i++ {
 				rid := base + c*per + i
@@ -462,8 +463,16 @@ func srvPooled(o *Out, rig *srvRig, r *rand.Rand, id *int, pfx string) {
 				if i%11 == 5 {
 					q.args.(*PArgs).Mode = "err" // a failing handler: the reply is still encoded and returned to the pool
 				}
-				if i%7 == 3 {
+				unencodable := false
+				if i%13 == 7 && !q.oneway {
+					q.args.(*PArgs).Mode = "nan" // the handler succeeds but its reply cannot be encoded
+					unencodable = true
+				}
+				if i%7 == 3 && !unencodable {
 					q.oneway = true // one-way requests use (and must return) pooled objects too
+				} else if unencodable {
+					wantErr[rid] = true
+					n++
 				} else {
 					want[rid] = a + b
 					n++
@@ -480,6 +489,13 @@ func srvPooled(o *Out, rig *srvRig, r *rand.Rand, id *int, pfx string) {
 			}
 			for _, m := range msgs {
 				var rp PReply
+				if wantErr[int(m.Seq())] {
+					if m.MessageStatusType() != protocol.Error {
+						ch <- res{fmt.Sprintf("request %d (unencodable reply) was not answered with an error", m.Seq())}
+						return
+					}
+					continue
+				}
 				if err := share.Codecs[protocol.JSON].Decode(m.Payload, &rp); err != nil {
 					ch <- res{"undecodable reply"}
 					return
